@@ -46,8 +46,25 @@ class C19(object):
                     data = [[rng.randrange(k)] for _ in range(ln)]
             L = rng.randint(1, min(ln, 5))
             kind = rng.choice(['dist', 'dist', 'cond', 'timeseries', 'entropy', 'binning'])
+            if kind == 'timeseries' and vector and ln < 2:
+                kind = 'dist'     # a single vector observation is read as two scalar observations by np.atleast_2d
             c = {'kind': kind, 'data': data, 'vector': vector, 'L': L, 'base': rng.choice(['linear', 2, 'e']),
                  'trim': rng.random() < 0.7, 'h': rng.randint(0, L)}
+            if kind == 'cond':
+                syms = sorted(set(tuple(x) for x in data))
+                hint = rng.choice(['none', 'none', 'subset', 'superset', 'exact'])
+                if hint == 'subset':
+                    c['alphabet'] = [list(s) for s in syms[:max(1, len(syms) - 1)]]
+                elif hint == 'superset':
+                    c['alphabet'] = [list(s) for s in syms] + [[7] * len(data[0])]
+                elif hint == 'exact':
+                    c['alphabet'] = [list(s) for s in syms]
+            if kind == 'entropy' and rng.random() < 0.06:
+                # a long, skewed sequence: some word occurs thousands of times
+                m = rng.choice([1500, 3000, 6000])
+                c['data'] = [[0] if rng.random() < 0.8 else [rng.randrange(k)] for _ in range(m)]
+                c['vector'] = False
+                c['L'] = rng.randint(1, 2)
             if kind == 'binning':
                 m = rng.randint(2, 30)
                 style = rng.choice(['maxent', 'uniform'])
@@ -133,7 +150,16 @@ class C19(object):
         if kind == 'cond':
             h = case['h']
             f = L - h
-            hist, cC, hC, alphabet = counts_from_data(pydata, h, f)
+            hint = case.get('alphabet')
+            if hint is not None and not vector:
+                # observations are scalars (or tuples for vector data): a hint lists symbols of observations
+                pyhint = [s[0] for s in hint]
+            elif hint is not None:
+                pyhint = None    # for vector observations the alphabet is over observation tuples' own elements
+            else:
+                pyhint = None
+            r.features.append('alphabet-hint=%s' % (pyhint is not None))
+            hist, cC, hC, alphabet = counts_from_data(pydata, h, f, alphabet=pyhint)
             mc, mh = drv.call('condcounts', [h, f, data])
             import itertools
             futures = list(itertools.product(alphabet, repeat=f))
@@ -262,7 +288,9 @@ class C19(object):
                     break
         elif not case['ties']:
             cnt = [lab.count(i) for i in range(bins)]
-            if max(cnt) - min(cnt) > 1:
+            n = len(lab)
+            # percentile thresholds (linear interpolation) put each bin within one sample of n/bins
+            if min(cnt) < n // bins - 1 or max(cnt) > -(-n // bins) + 1:
                 r.oracle_fail = 'maxent bins are not equally populated: %s' % cnt
         return r
 
